@@ -9,6 +9,7 @@
 -/
 import Homonim.GeneratedCode
 import Homonim.Model.Kernel
+import Homonim.Model.Resample
 import Mathlib.Tactic.Ring
 namespace Homonim
 open Homonim.Src
@@ -78,5 +79,8 @@ theorem src_C01_blk (sN : Sums) (f : Bool) (n0 n1 : Rat) (b : Block) (r c : Nat)
 theorem src_C14_apply (p : Params) (x : Rat) : applyParams p x = Src.applyParams p.gain p.offset x := by
   unfold Homonim.applyParams Src.applyParams
   rfl
+
+/-- `_get_resampling` (fuse and compare): the choice is by pixel area -/
+theorem src_C02_resampling_choice (fa ta : Rat) : useDownsampling fa ta = resamplingIsDown fa ta := rfl
 
 end Homonim
